@@ -40,6 +40,14 @@ func vfHostileNames(root string) []vfHostile {
 		{"dot-elem", []string{".", "x.txt"}, ""},
 		{"long-4k", []string{long}, ""},
 		{"dotdot-long", []string{"..", long[:200]}, ""},
+		{"dotdot-trailing-slash", []string{"../", "planted.txt"}, ""},
+		{"dotdot-trailing-slashes", []string{"..//", "planted3.txt"}, ""},
+		{"dotdot-trailing-slash-mid", []string{"top", "../", "../", "planted.txt"}, ""},
+		{"dotdot-trailing-slash-only", []string{"../"}, ""},
+		{"dot-trailing-slash", []string{"./", "..", "planted.txt"}, ""},
+		{"dotdot-backslash", []string{"..\\", "planted.txt"}, ""},
+		{"dotdot-space", []string{".. ", "planted.txt"}, ""},
+		{"name-trailing-slash", []string{"x/"}, ""},
 		{"canary", []string{"..", "canary.txt"}, ""},
 		{"outer-canary", []string{"..", "..", "outer.txt"}, ""},
 	}
